@@ -482,14 +482,20 @@ Section Order2.
     destruct (match f1 with FPass => _ | _ => _ end) eqn:EF.
     - assert (DF : dep_filter sc pl (r_tbl s1) SApply (g_deps (pl_graph pl) (p_id p)) = FPass)
         by (destruct f1; try discriminate; exact EF).
-      pose proof (kubectl_apply_shape s1 l) as [KT KR].
-      destruct (kubectl_apply sc s1 l) as [s2 r]. cbn [fst] in KT, KR.
+      (* the source lookups of the mutator: reads and cache writes, neither table nor trace *)
+      pose proof (mutate_tbl sc s1 l) as MT. pose proof (mutate_tr sc s1 l) as MR.
+      destruct (mutate sc s1 l) as [sm okm]. cbn [fst] in MT, MR.
+      assert (Sm : stepo s1 sm) by (apply stepo_same; assumption). pose proof (Sm H1) as Hm.
+      destruct okm; cbn [negb]; [|apply RA; [reflexivity|exact Hm]].
+      rewrite <- MT in DF.
+      pose proof (kubectl_apply_shape sm l) as [KT KR].
+      destruct (kubectl_apply sc sm l) as [s2 r]. cbn [fst] in KT, KR.
       assert (H2 : Inv s2).
       { unfold Inv. rewrite KT. destruct KR as [lt [-> AL]].
-        induction AL as [|it lt [rq [ok [m [st [-> AR]]]]] _ IH]; [exact H1|].
+        induction AL as [|it lt [rq [ok [m [st [-> AR]]]]] _ IH]; [exact Hm|].
         cbn [app]. apply invT_item; [intros j; reflexivity| |exact IH].
         rewrite (Hl l eq_refl) in AR. destruct rq; cbn in AR; try contradiction; subst; cbn;
-          (exists (r_tbl s1); split; [exact (proj1 IH)|exact DF]). }
+          (exists (r_tbl sm); split; [exact (proj1 IH)|exact DF]). }
       destruct r; apply RA; try reflexivity; exact H2.
     - apply RA; [reflexivity|exact H1].
     - apply RA; [reflexivity|exact H1].
